@@ -44,6 +44,13 @@ def handleFilters (args : List String) : Option String :=
       | some (some d) => "ok " ++ toHex d
       | some none => "err"
       | none => "panic"
+  | "filter_image_alpha" :: how :: rest => some <|
+    match parseImg rest, how.toNat? with
+    | some img, some s =>
+      (match filterImageStdAlpha img s with
+       | some (out, _) => "ok " ++ toHex out
+       | none => "panic")
+    | _, _ => "bad-args"
   | "filter_image" :: how :: rest => some <|
     match parseImg rest with
     | none => "bad-args"
